@@ -11,6 +11,35 @@ COQ_MODULE = "Props.Model"; RUN_FN = "run"
 THEOREMS = ["C17_capture_sound", "C17_capture_complete", "C17_no_foreign_entries", "C17_include_order_irrelevant",
             "C17_typed_stable"]
 QUICK_N = 2500; THOROUGH_N = 150000
+CLAIM = dict(
+    text="Machine-checked (Coq 8.16, axiom-free) about a byte-level model of Cfg::new (compartmentalize) and Props::update_from: "
+         "for EVERY flat dotted-key configuration whose keys are distinct, have non-empty segments, use '<any>' only as a whole "
+         "segment and end in a property name, and that is outside the known-finding class entry_at_wildcard_prefix (two keys K and "
+         "K.<any>.R), and for every module path (any depth; segments without '.', none literally '<any>'): a property (name, value) "
+         "is captured only if some entry's key is the path - '<any>' matching exactly one segment - followed by that name and the "
+         "value is that entry's (soundness); every such entry yields a property of that name holding the value of a matching "
+         "entry (completeness); two configurations that agree on the entries addressing a module give it the same property names, "
+         "a module nobody addresses receives nothing, and an entry for a same-depth sibling never addresses this module whatever "
+         "text the names share (alice/alicent, a/a\u00e9); including the configuration before, between or after the node creations "
+         "gives every module exactly the direct capture for its path; once a property holds a value of type T every later typed "
+         "read/write with another type is the InvalidInput error and changes nothing, the first typed read converts the "
+         "configuration number once to that very number or fails leaving it untouched. Refutation witnesses show the guards are "
+         "needed. Tied to the code on every run by differential execution of the extracted model against des_net_utils::props "
+         "(YAML text -> from_str -> Cfg::new -> capture_for_into) AND against des (Sim::include_cfg before/between/after Sim::node, "
+         "ModuleContext::props_keys/prop_raw/prop::<T>) on generated configurations, plus a monitor stating C17 itself on the "
+         "implementation's output; the three earlier defects (56781a0, 9508c1f, 47d42fd) are re-found when their fixes are reverted.",
+    note="Trusted: Coq kernel; extraction (ExtrOcamlBasic) cross-checked in-Coq by vm_compute each run; the harness/generator bound "
+         "the tie to the code; serde_yml's parser (exercised, not modelled: the model starts from the ordered key/value list and "
+         "rejects repeated keys as the parser does); values are unsigned integers; keys are YAML strings. KNOWN FINDING "
+         "entry_at_wildcard_prefix: `a: 1` next to `a.<any>.x: 2` makes the wildcard entry disappear (module a.z does not receive x) "
+         "- excluded by hypothesis, witness in coq/Refuted/C17.v, re-demonstrated on every run. Outside the quantifier (no property "
+         "name / malformed keys): keys ending in '<any>', empty segments, '<any>' inside a segment - checked for crashes and "
+         "model/code agreement only. Reading a property before include_cfg creates an empty slot that blocks the later "
+         "configuration value (Props::set keeps the first entry): outside the property's statement, not exercised.",
+    technique="Coq: denotation of nested mappings as flat segment-keyed entries, shape invariant of compartmentalised mappings, "
+              "permutation-preservation proof for compartmentalize (induction on fuel/keys), soundness+completeness of update_from "
+              "by induction on path length, entry state machine + differential correspondence check at two API levels",
+    design="6/C17")
 RULE = ("scripts = flat configuration (1..12 dotted keys over a segment alphabet built to share byte prefixes: a, ab, abc, "
         "a-b, é, aé, alice, alicent; '<any>' at every depth; property names that are themselves module names or dotted) + "
         "1..6 module paths of depth 1..4 (addressed modules, their prefix-sharing siblings, ancestors, descendants) + include "
@@ -23,7 +52,11 @@ TRUSTED = ["YAML text -> serde_yml::Value (parser) is exercised by the harness b
            "FxHashMap iteration order of Props is canonicalised by sorting; insertion order of serde_yml::Mapping (indexmap, "
            "swap_remove) is modelled exactly"]
 ASSUMPTIONS = ["names consist of printable ASCII and two-byte UTF-8 sequences; module path segments are non-empty and distinct "
-               "modules have distinct paths", "script numbers < 2^62"]
+               "modules have distinct paths", "script numbers < 2^62",
+               "the quantifier's configurations are those whose keys are distinct, have non-empty segments, use '<any>' only as a "
+               "whole segment and end in a property name (last segment not '<any>'): 'followed by the property name'. Other keys "
+               "(malformed stream) are run through both runners and must not crash, but the iff is not demanded of them",
+               "module path segments contain no '.' and none is literally '<any>'"]
 
 ANY = b"<any>"
 NAMES = [b"a", b"ab", b"abc", b"a-b", "é".encode(), "aé".encode(), b"alice", b"alicent"]
@@ -153,6 +186,21 @@ def valid(script):
         if not okb(p) or any(s == b"" for s in p.split(b".")): return False
     if len(set(paths)) != len(paths): return False
     return all(okb(o[2]) for o in tops)
+
+
+def wf_key(k):
+    ss = k.split(b".")
+    return all(x != b"" and (x == ANY or ANY not in x) for x in ss) and ss[-1] != ANY
+
+
+def known_pair(k1, k2):
+    """k2 = k1 . <any> . R  (segmentwise)"""
+    a, b = k1.split(b"."), k2.split(b".")
+    return len(b) > len(a) and b[:len(a)] == a and b[len(a)] == ANY
+
+
+def has_known_pair(keys):
+    return any(known_pair(a, b) for a in keys for b in keys)
 
 
 # ----------------------------------------------------------------------------- output walking
@@ -322,34 +370,51 @@ def monitor(script, out):
     if w is None:
         return "valid script rejected"
     _, entries, paths, tops = parse(script)
-    dup = len(set(k for k, _ in entries)) != len(entries)
+    keys = [k for k, _ in entries]
+    dup = len(set(keys)) != len(keys)
     p1, flag, d1, r1 = w["l1"]
     p2, d2, r2 = w["l2"]
     if p1 is not None:
         return "capture panicked (des_net_utils::props)"
     if p2 is not None:
         return "include_cfg / node creation panicked"
-    if dup:
-        # not a YAML mapping: nothing to demand beyond 'no properties appear from nowhere'
-        ents = []
-        for k, v in entries:
-            ents.append((k, v))
-        for path, a, b in zip(paths, d1, d2):
-            for where, d in (("props", a), ("des", b)):
-                for k, v in d:
-                    if k not in spec(ents, path) or v[0] != 0 or v[1] not in spec(ents, path)[k]:
-                        return "%s: duplicate-key configuration gave module %s a property '%s' no entry addresses" % (where, _s(path), _s(k))
-        return None
-    if flag != 0:
-        return "configuration text was rejected by the YAML parser"
     for path, a, b in zip(paths, d1, d2):
-        m = check_capture(entries, path, a, "props") or check_capture(entries, path, b, "des(include after %d nodes)" % script[0])
-        if m:
-            return m
-        if sorted(k for k, _ in a) != sorted(k for k, _ in b):
-            return "module %s: property set depends on the include order" % _s(path)
+        if sorted(a) != sorted(b):
+            return "module %s: property set depends on the include order (%d nodes before include_cfg)" % (_s(path), script[0])
+    if dup:
+        # not a YAML mapping: the text must be rejected and nobody receives anything
+        if flag != 5:
+            return "configuration with a repeated key was accepted"
+        if any(d for d in d1):
+            return "rejected configuration still produced properties"
+    else:
+        if flag != 0:
+            return "configuration text was rejected by the YAML parser"
+        if all(wf_key(k) for k in keys):
+            for path, a in zip(paths, d1):
+                m = check_capture(entries, path, a, "props")
+                if m:
+                    return m
     if paths:
         return check_typed(entries, paths, d1, tops, r1, "props") or check_typed(entries, paths, d2, tops, r2, "des")
+    return None
+
+
+def known_class(script, out, model_out):
+    """known finding entry_at_wildcard_prefix: the configuration contains two keys K and K.<any>.R"""
+    if not valid(script):
+        return None
+    _, entries, _, _ = parse(script)
+    keys = [k for k, _ in entries]
+    if len(set(keys)) == len(keys) and all(wf_key(k) for k in keys) and has_known_pair(keys):
+        return "entry_at_wildcard_prefix"
+    return None
+
+
+def known_witness(cls):
+    if cls == "entry_at_wildcard_prefix":
+        # a: 1; a.<any>.x: 2; modules a.z (entitled to x = 2, receives nothing) and a
+        return join([0], [e_entry(b"a", 1), e_entry(b"a.<any>.x", 2), e_module(b"a.z"), e_module(b"a")])
     return None
 
 
